@@ -10,7 +10,7 @@ from .._backends.base import AsyncNetworkBackend, AsyncNetworkStream
 from .._exceptions import ConnectionNotAvailable, ProxyError, map_exceptions
 from .._models import URL, Origin, Request, Response, enforce_bytes, enforce_url
 from .._ssl import default_ssl_context
-from .._synchronization import AsyncLock
+from .._synchronization import AsyncLock, AsyncShieldCancellation
 from .._trace import Trace
 from .connection_pool import AsyncConnectionPool
 from .http11 import AsyncHTTP11Connection
@@ -224,6 +224,7 @@ class AsyncSocks5Connection(AsyncConnectionInterface):
 
         async with self._connect_lock:
             if self._connection is None:
+                stream = None
                 try:
                     # Connect to the proxy
                     kwargs = {
@@ -297,6 +298,9 @@ class AsyncSocks5Connection(AsyncConnectionInterface):
                         )
                 except BaseException as exc:
                     self._connect_failed = True
+                    if stream is not None:
+                        with AsyncShieldCancellation():
+                            await stream.aclose()
                     raise exc
             elif not self._connection.is_available():  # pragma: nocover
                 raise ConnectionNotAvailable()
